@@ -250,6 +250,10 @@ pub enum B {
         body: Vec<u8>,
         calls: Vec<CustomCall>,
     },
+    /// `(unit PT)`: the zero-sized third-party writer `UnitPkt<PT>`
+    Unit {
+        pt: u8,
+    },
     Chunk(Chunk),
     Item(Item),
     Fci(Fci),
@@ -272,7 +276,11 @@ impl B {
 
     /// A whole packet, usable as a compound member.
     pub fn is_member(&self) -> bool {
-        self.is_basic() || matches!(self, B::Pb(_) | B::Compound(_) | B::Custom { .. })
+        self.is_basic()
+            || matches!(
+                self,
+                B::Pb(_) | B::Compound(_) | B::Custom { .. } | B::Unit { .. }
+            )
     }
 
     /// The parser used for the round trip, `None` when there is no round trip.
@@ -294,6 +302,8 @@ impl B {
             B::Pb(inner) => return inner.rt_kind(),
             B::Compound(_) => Kind::Compound,
             B::Custom { pt, min, .. } => Kind::Custom(*pt, *min),
+            // what it writes reads back as `(custom PT 8)`
+            B::Unit { pt } => Kind::Custom(*pt, 8),
             B::Chunk(_) | B::Item(_) | B::Fci(_) => return None,
         })
     }
@@ -973,6 +983,14 @@ pub fn builder(s: &Sexp) -> Result<B, Bad> {
                 body,
                 calls,
             })
+        }
+        "unit" => {
+            arity(args, 1)?;
+            let pt = num(&args[0])?;
+            if !CUSTOM_PTS.contains(&pt) {
+                return Err("custom-grid");
+            }
+            Ok(B::Unit { pt: pt as u8 })
         }
         "chunk" => Ok(B::Chunk(chunk(s)?)),
         "item" => Ok(B::Item(item(s)?)),
